@@ -8,7 +8,7 @@ t=/verif/.work/priv/$id/target
 if [ ! -d "$t" ]; then mkdir -p "$(dirname "$t")"; cp -a /verif/harness/target "$t" 2>/dev/null || mkdir -p "$t"; fi
 cd /verif/harness || exit 2
 [ -f Cargo.lock ] || cp /repo/Cargo.lock Cargo.lock
-export CARGO_NET_OFFLINE=true CARGO_TARGET_DIR="$t"
+export CARGO_NET_OFFLINE=true CARGO_TARGET_DIR="$t" CARGO_INCREMENTAL=0   # private dirs: no incremental cache (2 GB each)
 if [ -n "$feat" ]; then cargo build --offline --bin "$bin" --features "$feat" 2>&1 | tail -n "${TAIL:-40}"
 else cargo build --offline --bin "$bin" 2>&1 | tail -n "${TAIL:-40}"; fi
 echo "binary: $t/debug/$bin"
